@@ -18,6 +18,111 @@ pub const CLASS_NULL_TGT: &str = "null_key_target_rows_kept";
 pub const CLASS_FAIL: &str = "fail_off_fast_path";
 pub const CLASS_UPD: &str = "update_reads_assigned_column";
 
+pub const CLASS_UNZIP: &str = "update_if_partial_schema_panics";
+pub const CLASS_ROWID: &str = "stable_row_id_index_overlap";
+
+/// F18 (C34 class rowid_index_overlapping_ranges) seen through C12's operations: with stable row ids,
+/// get_row_id_index -> RowIdIndex::new panics once an update has moved rows out of the middle of a fragment
+pub fn rowid_index_panic(t: &Tbl, msg: &str) -> bool {
+    t.stable && msg.contains("Wrong range for") && msg.contains("rowids/index.rs")
+}
+
+/// returns false when the history cannot go on
+#[allow(clippy::too_many_arguments)]
+pub async fn delete_case(sink: &mut Sink, stream: &mut Stream, t: &mut Tbl, ti: usize, hist: &mut Vec<String>, before: &Layout, p: &B, cf: &B, tag: &str) -> bool {
+    let live = live_rows(before);
+    let p_sql = sql_b(p, &names_plain);
+    let cf_sql = sql_b(cf, &names_plain);
+    hist.push(format!("delete where {}", p_sql));
+    let case = json!({"table": ti, "op": tag, "where": p_sql, "count_filter": cf_sql, "stable_row_ids": t.stable, "before": fmt_layout(before), "history": hist});
+    if let Err(e) = t.delete(&p_sql).await {
+        if rowid_index_panic(t, &e) {
+            sink.count("stopped-by-rowid-index-panic");
+            sink.oracle_fail(Some(CLASS_ROWID), &format!("delete failed: {}", e.chars().take(200).collect::<String>()), case);
+        } else {
+            sink.oracle_fail(None, &format!("delete failed: {}", e), case);
+        }
+        return false;
+    }
+    let obs = match t.observe(&cf_sql).await {
+        Ok(o) => o,
+        Err(e) => {
+            sink.oracle_fail(None, &format!("table cannot be observed after delete: {}", e), case);
+            return false;
+        }
+    };
+    let mut case = case;
+    case["after"] = obs.json();
+    stream.push(format!("({}, ({}, {}))", coq_layout(before), coq_b(p), coq_b(cf)), obs.coq(0), case.clone());
+    sink.count(tag);
+    sink.nontrivial(&format!("d{}{}", coq_layout(before), p_sql));
+    let exp = ref_delete(p, &live);
+    let expf = exp.iter().filter(|r| sel(r, cf)).count() as u64;
+    if exp == obs.rows && obs.count_all == exp.len() as u64 && obs.count_filt == expf {
+        sink.oracle_ok();
+    } else {
+        case["expected"] = json!(fmt_rows(&exp));
+        sink.oracle_fail(None, "delete: scan / count_rows differ from SQL DELETE", case);
+    }
+    if obs.count_all == 0 {
+        sink.count("table-emptied");
+    }
+    true
+}
+
+#[allow(clippy::too_many_arguments)]
+pub async fn update_case(sink: &mut Sink, stream: &mut Stream, t: &mut Tbl, ti: usize, hist: &mut Vec<String>, before: &Layout, p: &B, asg: &[(usize, V)], cf: &B, tag: &str) -> bool {
+    let live = live_rows(before);
+    let p_sql = sql_b(p, &names_plain);
+    let cf_sql = sql_b(cf, &names_plain);
+    let sets: Vec<(String, String)> = asg.iter().map(|(c, e)| (col_name(*c), sql_v(e, &names_plain))).collect();
+    hist.push(format!("update set {:?} where {}", sets, p_sql));
+    let case = json!({"table": ti, "op": tag, "where": p_sql, "set": sets, "count_filter": cf_sql, "stable_row_ids": t.stable, "before": fmt_layout(before), "history": hist});
+    let n = match t.update(&p_sql, &sets).await {
+        Ok(n) => n,
+        Err(e) => {
+            if rowid_index_panic(t, &e) {
+                sink.count("stopped-by-rowid-index-panic");
+                sink.oracle_fail(Some(CLASS_ROWID), &format!("update failed: {}", e.chars().take(200).collect::<String>()), case);
+            } else {
+                sink.oracle_fail(None, &format!("update failed: {}", e), case);
+            }
+            return false;
+        }
+    };
+    let obs = match t.observe(&cf_sql).await {
+        Ok(o) => o,
+        Err(e) => {
+            sink.oracle_fail(None, &format!("table cannot be observed after update: {}", e), case);
+            return false;
+        }
+    };
+    let mut case = case;
+    case["after"] = obs.json();
+    case["rows_updated"] = json!(n);
+    let coq_asg = format!("[{}]", asg.iter().map(|(c, e)| format!("({}, {})", coq_nat(*c), coq_v(e))).collect::<Vec<_>>().join("; "));
+    stream.push(format!("({}, ({}, ({}, {})))", coq_layout(before), coq_b(p), coq_asg, coq_b(cf)), obs.coq(n), case.clone());
+    sink.count(tag);
+    sink.nontrivial(&format!("u{}{}{:?}", coq_layout(before), p_sql, sets));
+    // SQL UPDATE; order as the code guarantees it: untouched rows, then the rewritten ones
+    let newrows = ref_update(p, asg, &live);
+    let mut exp: Vec<Row> = live.iter().zip(newrows.iter()).filter(|(o, _)| !sel(o, p)).map(|(_, n)| n.clone()).collect();
+    exp.extend(live.iter().zip(newrows.iter()).filter(|(o, _)| sel(o, p)).map(|(_, n)| n.clone()));
+    let nsel = live.iter().filter(|r| sel(r, p)).count() as u64;
+    let expf = exp.iter().filter(|r| sel(r, cf)).count() as u64;
+    let in_class = known_update_reads_assigned(asg);
+    if in_class {
+        sink.count("update-in-class-reads-assigned");
+    }
+    if exp == obs.rows && obs.count_all == live.len() as u64 && n == nsel && obs.count_filt == expf {
+        sink.oracle_ok();
+    } else {
+        case["expected"] = json!(fmt_rows(&exp));
+        sink.oracle_fail(if in_class { Some(CLASS_UPD) } else { None }, "update: scan / rows_updated / count_rows differ from SQL UPDATE", case);
+    }
+    true
+}
+
 fn gen_cell(rng: &mut Rng, ty: Ty, key: bool) -> Cell {
     if rng.chance(1, if key { 7 } else { 6 }) {
         return None;
@@ -174,40 +279,12 @@ pub async fn one_table(sink: &mut Sink, ss: &mut Streams, rng: &mut Rng, ti: usi
         if kind < 4 {
             // ---------------------------------------------------------------- delete
             let p = gen_b(rng, 2, &pc);
-            let p_sql = sql_b(&p, &names_plain);
-            hist.push(format!("delete where {}", p_sql));
-            let case = json!({"table": ti, "op": "delete", "where": p_sql, "count_filter": cf_sql, "before": fmt_layout(&before), "history": hist});
-            if let Err(e) = t.delete(&p_sql).await {
-                sink.oracle_fail(None, &format!("delete failed: {}", e), case);
+            if !delete_case(sink, &mut ss.del, &mut t, ti, &mut hist, &before, &p, &cf, "delete").await {
                 return;
-            }
-            let obs = match t.observe(&cf_sql).await {
-                Ok(o) => o,
-                Err(e) => {
-                    sink.oracle_fail(None, &format!("table cannot be observed after delete: {}", e), case);
-                    return;
-                }
-            };
-            let mut case = case;
-            case["after"] = obs.json();
-            ss.del.push(format!("({}, ({}, {}))", coq_layout(&before), coq_b(&p), coq_b(&cf)), obs.coq(0), case.clone());
-            sink.count("delete");
-            sink.nontrivial(&format!("d{}{}", coq_layout(&before), p_sql));
-            let exp = ref_delete(&p, &live);
-            let expf = exp.iter().filter(|r| sel(r, &cf)).count() as u64;
-            if exp == obs.rows && obs.count_all == exp.len() as u64 && obs.count_filt == expf {
-                sink.oracle_ok();
-            } else {
-                case["expected"] = json!(fmt_rows(&exp));
-                sink.oracle_fail(None, "delete: scan / count_rows differ from SQL DELETE", case);
-            }
-            if obs.count_all == 0 {
-                sink.count("table-emptied");
             }
         } else if kind < 9 {
             // ---------------------------------------------------------------- update
             let p = if rng.chance(1, 10) { B::Lit(Tv::T) } else { gen_b(rng, 2, &pc) };
-            let p_sql = sql_b(&p, &names_plain);
             let nset = rng.range(1, 3) as usize;
             let mut targets: Vec<usize> = pc.iter().map(|c| c.0).collect();
             let mut asg: Vec<(usize, V)> = vec![];
@@ -224,45 +301,8 @@ pub async fn one_table(sink: &mut Sink, ss: &mut Streams, rng: &mut Rng, ti: usi
                 asg[0].1 = V::Col(b, t.tys[b]);
                 asg[1].1 = V::Col(a, t.tys[a]);
             }
-            let sets: Vec<(String, String)> = asg.iter().map(|(c, e)| (col_name(*c), sql_v(e, &names_plain))).collect();
-            hist.push(format!("update set {:?} where {}", sets, p_sql));
-            let case = json!({"table": ti, "op": "update", "where": p_sql, "set": sets, "count_filter": cf_sql, "before": fmt_layout(&before), "history": hist});
-            let n = match t.update(&p_sql, &sets).await {
-                Ok(n) => n,
-                Err(e) => {
-                    sink.oracle_fail(None, &format!("update failed: {}", e), case);
-                    return;
-                }
-            };
-            let obs = match t.observe(&cf_sql).await {
-                Ok(o) => o,
-                Err(e) => {
-                    sink.oracle_fail(None, &format!("table cannot be observed after update: {}", e), case);
-                    return;
-                }
-            };
-            let mut case = case;
-            case["after"] = obs.json();
-            case["rows_updated"] = json!(n);
-            let coq_asg = format!("[{}]", asg.iter().map(|(c, e)| format!("({}, {})", coq_nat(*c), coq_v(e))).collect::<Vec<_>>().join("; "));
-            ss.upd.push(format!("({}, ({}, ({}, {})))", coq_layout(&before), coq_b(&p), coq_asg, coq_b(&cf)), obs.coq(n), case.clone());
-            sink.count("update");
-            sink.nontrivial(&format!("u{}{}{:?}", coq_layout(&before), p_sql, sets));
-            // SQL UPDATE; order as the code guarantees it: untouched rows, then the rewritten ones
-            let newrows = ref_update(&p, &asg, &live);
-            let mut exp: Vec<Row> = live.iter().zip(newrows.iter()).filter(|(o, _)| !sel(o, &p)).map(|(_, n)| n.clone()).collect();
-            exp.extend(live.iter().zip(newrows.iter()).filter(|(o, _)| sel(o, &p)).map(|(_, n)| n.clone()));
-            let nsel = live.iter().filter(|r| sel(r, &p)).count() as u64;
-            let expf = exp.iter().filter(|r| sel(r, &cf)).count() as u64;
-            let in_class = known_update_reads_assigned(&asg);
-            if in_class {
-                sink.count("update-in-class-reads-assigned");
-            }
-            if exp == obs.rows && obs.count_all == live.len() as u64 && n == nsel && obs.count_filt == expf {
-                sink.oracle_ok();
-            } else {
-                case["expected"] = json!(fmt_rows(&exp));
-                sink.oracle_fail(if in_class { Some(CLASS_UPD) } else { None }, "update: scan / rows_updated / count_rows differ from SQL UPDATE", case);
+            if !update_case(sink, &mut ss.upd, &mut t, ti, &mut hist, &before, &p, &asg, &cf, "update").await {
+                return;
             }
         } else if kind < 17 {
             // ---------------------------------------------------------------- merge_insert
@@ -270,7 +310,9 @@ pub async fn one_table(sink: &mut Sink, ss: &mut Streams, rng: &mut Rng, ti: usi
             let st = gen_settings(rng, &t.tys, &on, t.index_on0, use_index);
             let src = gen_source(rng, &t.tys, &st, &live);
             let nb = rng.range(1, 2) as usize;
-            merge_case(sink, &mut ss.mrg, &mut t, ti, &mut hist, &before, &st, &src, nb, use_index, &cf, "merge").await;
+            if merge_case(sink, &mut ss.mrg, &mut t, ti, &mut hist, &before, &st, &src, nb, use_index, &cf, "merge").await.is_none() {
+                return;
+            }
         } else if kind < 19 {
             let na = rng.range(1, 5) as usize;
             let rows = gen_rows(rng, &t.tys, on.len(), na, false);
@@ -344,7 +386,12 @@ pub async fn merge_case(
         },
         Err((code, msg)) => {
             case["error"] = json!(msg.chars().take(300).collect::<String>());
-            if code == 4 {
+            if rowid_index_panic(t, &msg) {
+                sink.count("stopped-by-rowid-index-panic");
+                sink.oracle_fail(Some(CLASS_ROWID), &format!("merge_insert failed: {}", msg.chars().take(200).collect::<String>()), case);
+                return None;
+            }
+            if code == 4 || (code == 5 && !known_update_if_partial(st)) {
                 sink.oracle_fail(None, &format!("merge_insert failed: {}", msg.chars().take(300).collect::<String>()), case);
                 return None;
             }
@@ -386,7 +433,9 @@ pub async fn merge_case(
     } else if agree {
         sink.oracle_ok();
     } else {
-        let class = if known_fail_off_fast_path(st) {
+        let class = if known_update_if_partial(st) {
+            Some(CLASS_UNZIP)
+        } else if known_fail_off_fast_path(st) {
             Some(CLASS_FAIL)
         } else if known_null_key_source(st, src) {
             Some(CLASS_NULL_SRC)
@@ -432,7 +481,7 @@ pub async fn merge_case(
         if same {
             sink.oracle_ok();
         } else {
-            let class = if known_fail_off_fast_path(st) { Some(CLASS_FAIL) } else { None };
+            let class = if known_update_if_partial(st) { Some(CLASS_UNZIP) } else if known_fail_off_fast_path(st) { Some(CLASS_FAIL) } else { None };
             case["unindexed"] = json!(format!("{:?}", other.map(|x| x.map(|(r, s)| (fmt_rows(&sort_rows(r)), s)))));
             sink.oracle_fail(class, "merge_insert: indexed and unindexed join paths disagree", case);
         }
